@@ -2075,12 +2075,90 @@ fn gen_raw_entries(rng: &mut Rng, n: usize, bad_at: Option<(usize, u8)>) -> Vec<
         .collect()
 }
 
+/// C17 tamper sweep against a server that HOLDS the pending handshake of the very token and address: the client `h`
+/// (token `spec`) at `addr` sends its request and is challenged; then single-bit variants of that request are
+/// retransmitted from the same address — bits of the sealed private part, every byte of the xnonce, the AAD-bound
+/// expiry (towards earlier and later), protocol id, version, the MAC tail, a truncation — interleaved with genuine
+/// retransmissions; none of the variants may be answered. `all` = every position, otherwise a random dozen.
+fn tamper_sweep_pending(sc: &mut Sc, rng: &mut Rng, h: u64, addr: &str, spec: &TokSpec, now_us: u64, all: bool) {
+    let cl = match new_client(sc, h, addr, spec, now_us) {
+        Some(c) => c,
+        None => return,
+    };
+    let req = match sc.opd(&format!("cli-upd {} 0", h)) {
+        (_, Some(k)) => sc.hist[k].bytes.clone(),
+        _ => return,
+    };
+    if req.len() < 1078 {
+        return;
+    }
+    let mut chal = match sc.opd(&format!("srv-rx 0 {} {}", addr, hex(&req))) {
+        (_, Some(k)) => sc.hist[k].bytes.clone(),
+        _ => return,
+    };
+    let mut bits: Vec<usize> = vec![];
+    for b in [0usize, 1, 8 * 500 + 3, 8 * 1007 + 7] {
+        bits.push(54 * 8 + b); // the sealed body (without its MAC)
+    }
+    for j in 0..24usize {
+        bits.push((30 + j) * 8 + j % 8); // xnonce
+    }
+    for b in [0usize, 1, 6, 33, 63] {
+        bits.push(22 * 8 + b); // expiry (little endian): earlier and later
+    }
+    bits.push(14 * 8); // protocol id
+    bits.push(8); // version string
+    bits.push(1077 * 8 + 7); // the MAC of the token
+    let mut variants: Vec<Vec<u8>> = bits.iter().map(|b| flip_bit(&req, *b)).collect();
+    variants.push(req[..1077].to_vec());
+    if !all {
+        for _ in 0..3 {
+            variants.push(flip_bit(&req, 54 * 8 + rng.below(1008 * 8) as usize));
+        }
+        let mut pick: Vec<Vec<u8>> = vec![];
+        for _ in 0..12 {
+            pick.push(rng.pick(&variants));
+        }
+        variants = pick;
+    }
+    for (n, v) in variants.iter().enumerate() {
+        sc.op("note mutated");
+        sc.op(&format!("srv-rx 0 {} {}", addr, hex(v)));
+        if n % 7 == 3 {
+            // a genuine retransmission in between: answered with a fresh challenge
+            if let (_, Some(k)) = sc.opd(&format!("srv-rx 0 {} {}", addr, hex(&req))) {
+                chal = sc.hist[k].bytes.clone();
+            }
+        }
+    }
+    // the same variants of a token whose handshake is NOT pending at that address
+    let other = a4(10, 44, 0, 9, 4409);
+    for v in variants.iter().take(3) {
+        sc.op("note mutated");
+        sc.op(&format!("srv-rx 0 {} {}", other, hex(v)));
+    }
+    sc.op("srv-dump 0");
+    // the genuine handshake is unharmed
+    answer_challenge(sc, cl.h, addr, &chal, None);
+    sc.op("srv-dump 0");
+}
+
 fn script_wire(rng: &mut Rng, tier: Tier, f: &mut dyn FnMut(&str) -> String) {
     let mut sc = Sc::new(f);
     let budget = if tier == Tier::Thorough { 60 } else { 44 };
     let proto = rng.pick(&[0u64, 7, 0x1122334455667788, u64::MAX]);
     let key = k32(rng);
     let key_hex = hex(&key);
+    if rng.chance(1, 6) {
+        // tampered retransmissions of a connection request whose handshake is pending
+        let ckey = k32(rng);
+        let now_us = rng.pick(&[0u64, 999_999, 5_000_000]);
+        sc.op(&format!("srv-new 0 {} 2 {} 1 {} {} {}", now_us, proto, key_hex, hex(&ckey), SRV_A));
+        let mut spec = base_spec(rng, 77, proto, key, now_us / 1_000_000, SRV_A);
+        spec.expire = now_us / 1_000_000 + 40;
+        spec.seal_expire = spec.expire;
+        tamper_sweep_pending(&mut sc, rng, 0, &a4(10, 44, 0, 1, 4401), &spec, now_us, false);
+    }
     while sc.n < budget {
         match rng.below(12) {
             0 | 1 | 2 => {
@@ -2370,7 +2448,7 @@ fn script_wire(rng: &mut Rng, tier: Tier, f: &mut dyn FnMut(&str) -> String) {
 // profile 0: nc-regress — one fixed op list per repaired defect (deterministic, run on every check)
 // =============================================================================================
 
-const REGRESS_CASES: usize = 26;
+const REGRESS_CASES: usize = 29;
 
 fn regress_script(case: usize, f: &mut dyn FnMut(&str) -> String) {
     let mut rng = Rng::new(0xD1CE + case as u64);
@@ -3139,6 +3217,74 @@ fn regress_script(case: usize, f: &mut dyn FnMut(&str) -> String) {
                 sc.op("cli-dump 5");
             }
         }
+        // every single-bit variant class of a connection request, retransmitted while its handshake is pending
+        26 => {
+            let mut spec = base_spec(rng, 56, proto, key, 5, &hosts);
+            spec.expire = 45;
+            spec.seal_expire = 45;
+            spec.timeout = 5;
+            tamper_sweep_pending(&mut sc, rng, 5, &a4(10, 9, 0, 70, 4970), &spec, 5_000_000, true);
+        }
+        // fewer clients connected than the limit, the difference taken up by ABANDONED half-open handshakes of other
+        // addresses (tokens not expired): an honest newcomer with a lossless handshake gets in.
+        // 27: limit 2, one connected, two abandoned.  28: limit raised 2 -> 4 at run time, two connected, two abandoned.
+        27 | 28 => {
+            fast_connect(&mut sc, &cls[0]);
+            if case == 28 {
+                fast_connect(&mut sc, &cls[1]);
+                sc.op("srv-setmax 0 4");
+            }
+            let mut squat: Vec<Tok> = vec![];
+            if case == 27 {
+                // cls[1] asks and never answers its challenge
+                if let (_, Some(k)) = sc.opd("cli-upd 1 0") {
+                    let req = sc.hist[k].bytes.clone();
+                    sc.op(&format!("srv-rx 0 {} {}", cls[1].addr, hex(&req)));
+                }
+            }
+            for j in 0..(if case == 27 { 1u64 } else { 2 }) {
+                let mut spec = base_spec(rng, 57 + j, proto, key, 5, &hosts);
+                spec.expire = 35;
+                spec.seal_expire = 35;
+                if let Some(t) = mk_token(&mut sc, &spec) {
+                    let d = request_datagram(proto, spec.expire, &spec.xnonce, &t.private);
+                    sc.op(&format!("srv-rx 0 {} {}", a4(10, 9, 3, j as u8, 4990 + j as u16), hex(&d)));
+                    squat.push(t);
+                }
+            }
+            sc.op("srv-dump 0");
+            let mut spec = base_spec(rng, 59, proto, key, 5, &hosts);
+            spec.expire = 35;
+            spec.seal_expire = 35;
+            spec.timeout = 5;
+            let a = a4(10, 9, 0, 80, 4980);
+            if let Some(c) = new_client(&mut sc, 5, &a, &spec, 5_000_000) {
+                // lossless: every datagram delivered at once, in order
+                for _ in 0..3 {
+                    sc.op("srv-upd 0 250000");
+                    if let (_, Some(k)) = sc.opd("cli-upd 5 250000") {
+                        let d = sc.hist[k].bytes.clone();
+                        if let (_, Some(k)) = sc.opd(&format!("srv-rx 0 {} {}", c.addr, hex(&d))) {
+                            let r = sc.hist[k].bytes.clone();
+                            sc.op(&format!("cli-rx 5 {}", hex(&r)));
+                            if let (_, Some(k)) = sc.opd("cli-upd 5 0") {
+                                let d = sc.hist[k].bytes.clone();
+                                if let (_, Some(k)) = sc.opd(&format!("srv-rx 0 {} {}", c.addr, hex(&d))) {
+                                    let r = sc.hist[k].bytes.clone();
+                                    sc.op(&format!("cli-rx 5 {}", hex(&r)));
+                                }
+                            }
+                        }
+                    }
+                }
+                sc.op("note expect-up:refused-below-the-limit");
+                sc.op("cli-q 5");
+                sc.op("note expect-up:refused-below-the-limit");
+                sc.op("srv-q 0 59");
+                sc.op("srv-dump 0");
+            }
+            let _ = squat;
+        }
         // sequence 2^64-1 (the window's EMPTY sentinel) from the owner of a session
         _ => {
             fast_connect(&mut sc, &cls[0]);
@@ -3343,6 +3489,17 @@ fn script_failover(rng: &mut Rng, _tier: Tier, f: &mut dyn FnMut(&str) -> String
             let delay_instead_of_loss = rng.chance(1, 2);
             let early = !big && k >= 1 && rng.chance(1, 3);
             fcs.push(FoClient { cl, real_at: k, timeout_us, t_us: srv.now_us, reached_us: None, window_us, delay_instead_of_loss, held: vec![], done: false, early, early_done: false });
+        }
+    }
+    // abandoned half-open handshakes of other addresses (valid tokens that never answer their challenge): they hold no
+    // seat — fewer clients than the limit are connected, so the honest clients below still get in
+    for j in 0..rng.below(max as u64 + 1) {
+        let mut spec = base_spec(rng, 680 + j, srv.proto, srv.key, now_s, SRV_A);
+        spec.expire = now_s + 300;
+        spec.seal_expire = spec.expire;
+        if let Some(t) = mk_token(&mut sc, &spec) {
+            let d = request_datagram(srv.proto, spec.expire, &spec.xnonce, &t.private);
+            sc.op(&format!("srv-rx 0 {} {}", a4(10, 6, 9, j as u8, 4690 + j as u16), hex(&d)));
         }
     }
     sc.op("note setup-done");
@@ -4680,7 +4837,56 @@ fn oracle_mutated_rejected(ops: &[String], outs: &[String]) -> Option<OracleFail
             return fail(i + 1, &format!("tampered-accepted:{}", kind), format!("tampered input was accepted: `{}` -> `{}`", trunc_s(&ops[i + 1], 60), trunc_s(o, 40)));
         }
     }
-    None
+    tampered_request_rejected(ops, outs)
+}
+
+/// C17, tokens presented to a SERVER (whatever its state — fresh, or holding a pending handshake of that very token
+/// and address): a connection request that is a modification of a token issued in the trace (`ptok-seal`) — it shares
+/// the sealed body, the MAC tail, or the xnonce with it, but protocol id, expiry, xnonce and sealed part are not ALL
+/// the ones that were sealed — cannot authenticate and gets no answer ("flipping any single bit of … a token's sealed
+/// part or of its bound public fields (protocol id, expiry) … yields an error, never content"). Nothing but the trace
+/// is consulted: the tokens are the `ptok-seal` outputs, the verdict is the server's output line.
+fn tampered_request_rejected(ops: &[String], outs: &[String]) -> Option<OracleFail> {
+    let tokens = tokens_of(ops, outs, ops.len());
+    if tokens.is_empty() {
+        return None;
+    }
+    walk(ops, outs, &mut |i, t, out, input, _| {
+        if t[0] != "srv-rx" || t.len() != 4 {
+            return None;
+        }
+        let d = input?;
+        if d.len() < 1078 || d[0] & 0xf != 0 {
+            return None;
+        }
+        if !(out.starts_with("send ") || out.starts_with("connected ")) {
+            return None;
+        }
+        let proto = u64::from_le_bytes(d[14..22].try_into().unwrap());
+        let expire = u64::from_le_bytes(d[22..30].try_into().unwrap());
+        let xnonce = &d[30..54];
+        let private = &d[54..1078];
+        if tokens.iter().any(|k| k.private == private && k.xnonce == xnonce && k.expire == expire && k.proto == proto) {
+            return None; // exactly what was sealed
+        }
+        let near = tokens.iter().find(|k| k.private.len() == 1024 && (k.private == private || k.private[..1008] == private[..1008] || k.private[1008..] == private[1008..] || k.xnonce == xnonce))?;
+        let what = if near.private[..1008] != private[..1008] {
+            "sealed-body"
+        } else if near.private[1008..] != private[1008..] {
+            "mac"
+        } else if near.xnonce != xnonce {
+            "xnonce"
+        } else if near.expire != expire {
+            "expiry"
+        } else {
+            "protocol-id"
+        };
+        fail(
+            i,
+            &format!("tampered-accepted:request:{}", what),
+            format!("a connection request from {} carrying a modified copy of the token of client {} ({} changed) was answered `{}`", t[2], near.id, what, trunc_s(out, 30)),
+        )
+    })
 }
 
 // ----- C16: round trips ------------------------------------------------------------------------------------
@@ -5640,7 +5846,7 @@ pub fn oracles() -> Vec<Oracle> {
         Oracle { prop: "C10", name: "nc-connection-table", engines: &["nc-handshake", "nc-attacker", "nc-session", "nc-hostile", "nc-regress", "nc-pending-full"], check: oracle_table },
         Oracle { prop: "C05", name: "nc-connect-justified", engines: &["nc-handshake", "nc-attacker", "nc-session", "nc-hostile", "nc-regress", "nc-table-full"], check: oracle_connect_justified },
         Oracle { prop: "C17", name: "nc-nonce-unique", engines: &["nc-handshake", "nc-session", "nc-hostile", "nc-regress", "nc-failover"], check: oracle_nonce },
-        Oracle { prop: "C17", name: "nc-tampered-rejected", engines: &["nc-wire", "nc-regress"], check: oracle_mutated_rejected },
+        Oracle { prop: "C17", name: "nc-tampered-rejected", engines: &["nc-wire", "nc-regress", "nc-handshake", "nc-session", "nc-failover"], check: oracle_mutated_rejected },
         Oracle { prop: "C16", name: "nc-wire-roundtrip", engines: &["nc-wire"], check: oracle_roundtrip },
         Oracle { prop: "C04", name: "nc-payloads-authentic-once", engines: &["nc-session", "nc-handshake", "nc-hostile", "nc-known", "nc-regress", "nc-failover"], check: oracle_payloads },
         Oracle { prop: "C04", name: "nc-window-once", engines: &["nc-window"], check: oracle_window_once },
